@@ -968,6 +968,13 @@ class Interp:
                     qf = Form(a.form.c // c, tuple((s_, k // c) for s_, k in a.form.terms))
                     return qf if op == 'Div' else Form.const(0)
                 la, ha = n.rng2(a.form)
+                if a.form.terms and all(k % c == 0 for _, k in a.form.terms) and (la >= 0 or ha <= 0):
+                    # c*T + k with a known sign: the quotient is T + floor(k/c) (dividend >= 0) or T + ceil(k/c) (<= 0)
+                    k1, k0 = a.form.c // c, a.form.c % c
+                    if la < 0 and k0:
+                        k1 += 1
+                    qf = Form(k1, tuple((s_, k // c) for s_, k in a.form.terms))
+                    return qf if op == 'Div' else a.form.sub(qf.scale(c))
                 tlo, thi = self.irange(ty)
                 q = SYMTAB.div(a.form, c, tdiv(tlo, c) - 1, tdiv(thi, c) + 1)
                 if tdiv(la, c) > n.slo(q):
